@@ -535,7 +535,7 @@ theorem numbers_consecutive (c : Cfg) (l : List In) :
     split
     · simpa using hi.nums
     · have := (hi.segNum sg hseg).1
-      simpa using range_succ_map _ ⟨sg.number, sg.startDTS, sg.startNTP, 0, sg.flushed⟩ hi.nums (by simpa using this)
+      simpa using range_succ_map _ ⟨sg.number, sg.startDTS, sg.startNTP, 0, sg.flushed, sg.trigger⟩ hi.nums (by simpa using this)
 
 /-- hence consecutive files of one instance are recognised as continuous by the playback server
 (segmentFMP4CanBeConcatenated: same stream id, number + 1) -/
@@ -560,6 +560,440 @@ theorem closed_duration (d : Nat) (h : d / 1000000 < u32) :
   rw [Nat.mod_eq_of_lt h]
   unfold readHdr
   omega
+
+/-! ### "segments begin with a random-access sample when the stream has video" -/
+
+def OneVideo (c : Cfg) : Prop := ∀ a b, isVideo c a = true → isVideo c b = true → a = b
+
+def pendSync (s : St) (V : Nat) : Prop := ∀ p, s.pend.getD V none = some p → p.nonSync = false
+
+def firstSync (l : List WS) (V : Nat) : Prop := ∀ w, l.find? (fun w => w.track == V) = some w → w.nonSync = false
+
+/-- the clause as the property words it, for every recording (gate + writer), at normal termination -/
+def starts_with_sync_full : Prop :=
+  ∀ (c : Cfg) (l : List In), ∀ f ∈ (close (grun c (init c) l)).files, fileSync c f = true
+
+structure Good (c : Cfg) (s : St) : Prop where
+  files : ∀ f ∈ s.files, fileSync c f = true
+  seg : ∀ sg, s.seg = some sg → ∀ V, isVideo c V = true →
+    firstSync (segSamples sg) V ∧ (segHas sg V = false → pendSync s V)
+  noseg : s.seg = none → s.closed = false → ∀ V, isVideo c V = true → pendSync s V
+  nov : s.hasVideo = false → ∀ V, isVideo c V = true → s.pend.getD V none = none
+
+theorem fileSync_of (c : Cfg) (f : FileSt) (h : ∀ V, isVideo c V = true → firstSync (f.parts.flatMap (·.all)) V) :
+    fileSync c f = true := by
+  unfold fileSync
+  rw [List.all_eq_true]
+  intro V _
+  cases hv : isVideo c V with
+  | false => simp
+  | true =>
+    simp only [Bool.not_true, Bool.false_or]
+    have := h V hv
+    unfold firstOf
+    cases hf : (f.parts.flatMap (·.all)).find? (fun w => w.track == V) with
+    | none => rfl
+    | some w => simp [this w hf]
+
+theorem segSamples_segWrite (c : Cfg) (sg : SegSt) (w : WS) (rate : Nat) :
+    segSamples (segWrite c sg w rate) = segSamples sg ++ [w] := by
+  unfold segWrite
+  simp only []
+  cases hc : sg.cur with
+  | none => simp [segSamples, segParts, hc, addToPart_all]
+  | some p =>
+    simp only []
+    by_cases hd : p.fin - p.start ≥ c.partDur
+    · rw [if_pos hd]; simp [segSamples, segParts, hc, addToPart_all]
+    · rw [if_neg hd]; simp [segSamples, segParts, hc, addToPart_all]
+
+theorem firstSync_nil (V : Nat) : firstSync [] V := by intro w h; simp at h
+
+theorem firstSync_append (l : List WS) (w : WS) (V : Nat) (h : firstSync l V)
+    (hw : l.any (fun x => x.track == V) = false → w.track = V → w.nonSync = false) : firstSync (l ++ [w]) V := by
+  intro x hx
+  rw [List.find?_append] at hx
+  cases hl : l.find? (fun w => w.track == V) with
+  | some y => rw [hl] at hx; simp at hx; subst hx; exact h y hl
+  | none =>
+    rw [hl] at hx
+    simp at hx
+    have hany : l.any (fun x => x.track == V) = false := by
+      rw [List.find?_eq_none] at hl
+      rw [List.any_eq_false]
+      intro y hy; simpa using hl y hy
+    obtain ⟨h1, h2⟩ := hx
+    subst h2
+    exact hw hany h1
+
+theorem segHas_segWrite (c : Cfg) (sg : SegSt) (w : WS) (rate : Nat) (V : Nat) :
+    segHas (segWrite c sg w rate) V = (segHas sg V || (w.track == V)) := by
+  unfold segHas
+  rw [segSamples_segWrite]
+  simp [List.any_append]
+
+theorem getD_set_ne (l : List (Option In)) (i j : Nat) (v : Option In) (h : i ≠ j) :
+    (l.set i v).getD j none = l.getD j none := by
+  simp [List.getD_eq_getElem?_getD, List.getElem?_set, h]
+
+theorem getD_set_self (l : List (Option In)) (i : Nat) (v : In) (p : In)
+    (h : (l.set i (some v)).getD i none = some p) : p = v := by
+  simp only [List.getD_eq_getElem?_getD, List.getElem?_set] at h
+  by_cases hi : i < l.length
+  · simp [hi] at h; exact h.symm
+  · simp [hi] at h
+
+theorem closeInst_hasVideo (s : St) : (closeInst s).hasVideo = s.hasVideo := by
+  unfold closeInst; split <;> rfl
+
+theorem closeInst_pend (s : St) : (closeInst s).pend = s.pend := by
+  unfold closeInst; split <;> rfl
+
+theorem freshSeg_samples (n d : Nat) (t : Int) (tr : Option Nat) : segSamples (freshSeg n d t tr) = [] := by
+  simp [segSamples, segParts, freshSeg]
+
+theorem segClose_parts (sg : SegSt) (f : FileSt) (h : segClose sg = some f) :
+    f.parts.flatMap (·.all) = segSamples sg := by
+  unfold segClose at h
+  split at h
+  · cases h
+  · injection h with h; rw [← h]; rfl
+
+theorem files_append_close (c : Cfg) (files : List FileSt) (sg : SegSt)
+    (hf : ∀ f ∈ files, fileSync c f = true) (hs : ∀ V, isVideo c V = true → firstSync (segSamples sg) V) :
+    ∀ f ∈ files ++ (segClose sg).toList, fileSync c f = true := by
+  intro f hmem
+  rcases List.mem_append.mp hmem with hmem | hmem
+  · exact hf f hmem
+  · cases hc : segClose sg with
+    | none => rw [hc] at hmem; simp at hmem
+    | some g =>
+      rw [hc] at hmem; simp at hmem; subst hmem
+      apply fileSync_of
+      intro V hV
+      rw [segClose_parts sg f hc]
+      exact hs V hV
+
+theorem closeInst_files (c : Cfg) (s : St) (hf : ∀ f ∈ s.files, fileSync c f = true)
+    (hs : ∀ sg, s.seg = some sg → ∀ V, isVideo c V = true → firstSync (segSamples sg) V) :
+    ∀ f ∈ (closeInst s).files, fileSync c f = true := by
+  unfold closeInst
+  split
+  · exact hf
+  · rename_i sg hseg
+    exact files_append_close c s.files sg hf (hs sg hseg)
+
+theorem curSeg_cases (s : St) (d : Nat) (n : Int) :
+    (∃ sg0, s.seg = some sg0 ∧ curSeg s d n = sg0) ∨ (s.seg = none ∧ curSeg s d n = freshSeg s.nextNumber d n) := by
+  unfold curSeg
+  cases hs : s.seg with
+  | none => exact Or.inr ⟨rfl, rfl⟩
+  | some sg0 => exact Or.inl ⟨sg0, rfl, rfl⟩
+
+theorem lateP_seg (s : St) (d : Nat) (h : lateP s d = true) : ∃ sg0, s.seg = some sg0 := by
+  unfold lateP at h
+  cases hs : s.seg with
+  | none => rw [hs] at h; simp at h
+  | some sg0 => exact ⟨sg0, rfl⟩
+
+theorem mkWS_track (c : Cfg) (x smp : In) : (mkWS c x smp).track = x.track := rfl
+theorem mkWS_nonSync (c : Cfg) (x smp : In) : (mkWS c x smp).nonSync = smp.nonSync := rfl
+
+/-- **one write keeps `Good`**, provided it records no late discard of a video track's first sample -/
+theorem write_good (c : Cfg) (hone : OneVideo c) (s : St) (x : In) (h : Good c s)
+    (hx : isVideo c x.track = true → s.pend.getD x.track none = none → x.nonSync = false)
+    (hnd : (write c s x).drops = []) (hd0 : s.drops = []) : Good c (write c s x) := by
+  unfold write at hnd ⊢
+  split
+  · exact h
+  · rename_i hclosed
+    have hcl : s.closed = false := by simpa using hclosed
+    rw [if_neg hclosed] at hnd
+    split
+    · -- first call for this track: the sample is only stored
+      rename_i hnone
+      have hpend : ∀ V, isVideo c V = true →
+          ∀ p, (s.pend.set x.track (some x)).getD V none = some p → p.nonSync = false ∨ s.pend.getD V none = some p := by
+        intro V hV p hp
+        by_cases e : x.track = V
+        · subst e
+          have := getD_set_self _ _ _ _ hp
+          subst this
+          exact Or.inl (hx hV hnone)
+        · rw [getD_set_ne _ _ _ _ e] at hp; exact Or.inr hp
+      refine ⟨h.files, ?_, ?_, ?_⟩
+      · intro sg hseg V hV
+        have := h.seg sg hseg V hV
+        refine ⟨this.1, fun hh p hp => ?_⟩
+        rcases hpend V hV p hp with r | r
+        · exact r
+        · exact this.2 hh p r
+      · intro hseg _ V hV p hp
+        rcases hpend V hV p hp with r | r
+        · exact r
+        · exact h.noseg hseg hcl V hV p r
+      · intro hhv V hV
+        simp only [Bool.or_eq_false_iff] at hhv
+        have e : x.track ≠ V := by intro e; subst e; rw [hV] at hhv; exact absurd hhv.2 (by simp)
+        show (s.pend.set x.track (some x)).getD V none = none
+        rw [getD_set_ne _ _ _ _ e]; exact h.nov hhv.1 V hV
+    · rename_i smp hsmp
+      rw [hsmp] at hnd
+      simp only [] at hnd ⊢
+      have hpendO : ∀ V, x.track ≠ V →
+          (s.pend.set x.track (some (adjNext x smp))).getD V none = s.pend.getD V none :=
+        fun V e => getD_set_ne _ _ _ _ e
+      -- the segment written into, before the write
+      have base : ∀ V, isVideo c V = true →
+          firstSync (segSamples (curSeg s (mkWS c x smp).dts smp.ntp)) V ∧
+          (segHas (curSeg s (mkWS c x smp).dts smp.ntp) V = false → pendSync s V) := by
+        intro V hV
+        rcases curSeg_cases s (mkWS c x smp).dts smp.ntp with ⟨sg0, h1, h2⟩ | ⟨h1, h2⟩
+        · rw [h2]; exact h.seg sg0 h1 V hV
+        · rw [h2, freshSeg_samples]
+          exact ⟨firstSync_nil V, fun _ => h.noseg h1 hcl V hV⟩
+      have hnov : (s.hasVideo || isVideo c x.track) = false → ∀ V, isVideo c V = true →
+          (s.pend.set x.track (some (adjNext x smp))).getD V none = none := by
+        intro hhv V hV
+        simp only [Bool.or_eq_false_iff] at hhv
+        have e : x.track ≠ V := by intro e; subst e; rw [hV] at hhv; exact absurd hhv.2 (by simp)
+        rw [hpendO V e]; exact h.nov hhv.1 V hV
+      -- the sample written is a random-access one if it is the first of its (video) track in the segment
+      have hwsync : ∀ V, isVideo c V = true →
+          (segSamples (curSeg s (mkWS c x smp).dts smp.ntp)).any (fun y => y.track == V) = false →
+          (mkWS c x smp).track = V → (mkWS c x smp).nonSync = false := by
+        intro V hV hany hT
+        rw [mkWS_track] at hT
+        subst hT
+        exact (base _ hV).2 hany smp hsmp
+      have afterW : ∀ V, isVideo c V = true →
+          firstSync (segSamples (segWrite c (curSeg s (mkWS c x smp).dts smp.ntp) (mkWS c x smp) (rateOf c x.track))) V := by
+        intro V hV
+        rw [segSamples_segWrite]
+        exact firstSync_append _ _ V (base V hV).1 (hwsync V hV)
+      split
+      · -- drift error: the instance closes
+        refine ⟨?_, ?_, ?_, ?_⟩
+        · exact closeInst_files c _ h.files (fun sg hseg V hV => (h.seg sg hseg V hV).1)
+        · intro sg hseg
+          exfalso
+          unfold closeInst at hseg
+          split at hseg <;> simp_all
+        · intro _ hc
+          exfalso
+          unfold closeInst at hc
+          split at hc <;> simp at hc
+        · intro hhv V hV
+          rw [closeInst_hasVideo] at hhv
+          rw [closeInst_pend]
+          exact hnov hhv V hV
+      · rename_i hdrift
+        rw [if_neg hdrift] at hnd
+        split
+        · -- late sample discarded
+          rename_i hlate
+          rw [if_pos hlate] at hnd
+          obtain ⟨sg0, hs0⟩ := lateP_seg s _ hlate
+          have hcur : curSeg s (mkWS c x smp).dts smp.ntp = sg0 := by unfold curSeg; rw [hs0]
+          have hnodrop : ¬ (isVideo c x.track = true ∧ segHas sg0 x.track = false) := by
+            intro hh
+            simp only [hcur, hh.1, hh.2, Bool.not_false, Bool.and_self, if_true, hd0] at hnd
+            simp at hnd
+          refine ⟨h.files, ?_, by intro e; simp at e, ?_⟩
+          · intro sg' e V hV
+            simp at e; subst e
+            rw [hcur]
+            refine ⟨(h.seg sg0 hs0 V hV).1, fun hh p hp => ?_⟩
+            by_cases e : x.track = V
+            · subst e; exact absurd ⟨hV, hh⟩ hnodrop
+            · have hp' : (s.pend.set x.track (some (adjNext x smp))).getD V none = some p := hp
+              rw [hpendO V e] at hp'
+              exact (h.seg sg0 hs0 V hV).2 hh p hp'
+          · intro hhv V hV
+            exact hnov hhv V hV
+        · rename_i hlate
+          split
+          · -- segment switch
+            rename_i hsw
+            refine ⟨?_, ?_, by intro e; simp at e, ?_⟩
+            · exact files_append_close c s.files _ h.files afterW
+            · intro sg' e V hV
+              simp at e; subst e
+              rw [freshSeg_samples]
+              refine ⟨firstSync_nil V, fun _ p hp => ?_⟩
+              have hp' : (s.pend.set x.track (some (adjNext x smp))).getD V none = some p := hp
+              unfold switchCond at hsw
+              simp only [Bool.and_eq_true, Bool.or_eq_true, Bool.not_eq_true', decide_eq_true_eq] at hsw
+              by_cases e : x.track = V
+              · subst e
+                have := getD_set_self _ _ _ _ hp'
+                subst this
+                exact hsw.1.2
+              · rw [hpendO V e] at hp'
+                rcases hsw.1.1 with hnv | hvT
+                · have := hnov hnv V hV
+                  rw [hpendO V e] at this
+                  rw [this] at hp'; cases hp'
+                · exact absurd (hone _ _ hvT hV) e
+            · intro hhv V hV
+              exact hnov hhv V hV
+          · -- ordinary write
+            refine ⟨h.files, ?_, by intro e; simp at e, ?_⟩
+            · intro sg' e V hV
+              simp at e; subst e
+              refine ⟨afterW V hV, fun hh p hp => ?_⟩
+              rw [segHas_segWrite] at hh
+              simp only [Bool.or_eq_false_iff, mkWS_track] at hh
+              have e : x.track ≠ V := by intro e; subst e; simp at hh
+              have hp' : (s.pend.set x.track (some (adjNext x smp))).getD V none = some p := hp
+              rw [hpendO V e] at hp'
+              exact (base V hV).2 hh.1 p hp'
+            · intro hhv V hV
+              exact hnov hhv V hV
+
+theorem write_drops_mono (c : Cfg) (s : St) (x : In) (h : (write c s x).drops = []) : s.drops = [] := by
+  unfold write at h
+  split at h
+  · exact h
+  · split at h
+    · exact h
+    · simp only [] at h
+      split at h
+      · unfold closeInst at h; split at h <;> exact h
+      · split at h
+        · simp only [] at h
+          split at h
+          · simp at h
+          · exact h
+        · split at h <;> exact h
+
+theorem gwrite_good (c : Cfg) (hone : OneVideo c) (s : St) (x : In) (h : Good c s)
+    (hnd : (gwrite c s x).drops = []) : Good c (gwrite c s x) ∧ s.drops = [] := by
+  unfold gwrite at hnd ⊢
+  by_cases hg : (isVideo c x.track && (s.pend.getD x.track none).isNone && x.nonSync) = true
+  · rw [if_pos hg] at hnd ⊢
+    exact ⟨h, hnd⟩
+  · rw [if_neg hg] at hnd ⊢
+    have hd0 := write_drops_mono c s x hnd
+    refine ⟨write_good c hone s x h ?_ hnd hd0, hd0⟩
+    intro hv hn
+    simp only [hv, hn, Option.isNone_none, Bool.and_self, Bool.true_and, Bool.not_eq_true] at hg
+    exact hg
+
+theorem init_good (c : Cfg) : Good c (init c) := by
+  refine ⟨by simp [init], by intro sg h; simp [init] at h, ?_, ?_⟩
+  · intro _ _ V _ p hp
+    simp [init, List.getD_eq_getElem?_getD] at hp
+    by_cases hV : V < c.tracks.length <;> simp [hV] at hp
+  · intro _ V _
+    simp [init, List.getD_eq_getElem?_getD]
+    by_cases hV : V < c.tracks.length <;> simp [hV]
+
+theorem grun_good (c : Cfg) (hone : OneVideo c) : ∀ (l : List In) (s : St), Good c s →
+    (grun c s l).drops = [] → Good c (grun c s l) := by
+  intro l
+  induction l with
+  | nil => intro s h _; exact h
+  | cons x r ih =>
+    intro s h hnd
+    have hmono : ∀ (l : List In) (t : St), (grun c t l).drops = [] → t.drops = [] := by
+      intro l
+      induction l with
+      | nil => intro t ht; exact ht
+      | cons y r' ih' =>
+        intro t ht
+        have := ih' (gwrite c t y) ht
+        unfold gwrite at this
+        split at this
+        · exact this
+        · exact write_drops_mono c t y this
+    have h1 := hmono r (gwrite c s x) hnd
+    exact ih _ (gwrite_good c hone s x h h1).1 hnd
+
+theorem close_drops (s : St) : (close s).drops = s.drops := by
+  unfold close closeInst
+  split
+  · rfl
+  · split <;> rfl
+
+/-- **starts_with_sync, where it holds**: one video track, and no video sample was discarded as "received too late"
+while its track had nothing in the segment yet (`drops = []`, decidable on the history; it is implied by
+"no track is ever more than 1 s ahead of the video track and the first key frame is not older than the segment"). -/
+theorem starts_with_sync_partial (c : Cfg) (l : List In) (hone : OneVideo c)
+    (hnd : (close (grun c (init c) l)).drops = []) :
+    ∀ f ∈ (close (grun c (init c) l)).files, fileSync c f = true := by
+  rw [close_drops] at hnd
+  have hg := grun_good c hone l (init c) (init_good c) hnd
+  unfold close
+  split
+  · exact hg.files
+  · exact closeInst_files c _ hg.files (fun sg hseg V hV => (hg.seg sg hseg V hV).1)
+
+/-! #### the clause is false in general: three concrete histories (each replayed on the real recorder by the
+harness scenarios 6, 7, 8; times in ms at a 1 kHz clock) -/
+
+def ms (t d : Nat) (ns : Bool) (id : Nat) : In := ⟨t, d, (d : Int) * 1000000, ns, id⟩
+
+/-- two video tracks: the switch is triggered by track 0's key frame; track 1's pending frame is not one -/
+def cfg2v : Cfg := ⟨[⟨true, 1000⟩, ⟨true, 1000⟩], 1000000000, 1000000000⟩
+def hist2v : List In :=
+  [ms 0 0 false 1, ms 1 0 false 2, ms 0 500 true 3, ms 1 600 true 4, ms 0 1000 false 5, ms 1 1100 true 6, ms 0 1500 true 7]
+
+theorem sync_witness_second_video :
+    (close (grun cfg2v (init cfg2v) hist2v)).files.map (fileSync cfg2v) = [true, false] ∧
+    (close (grun cfg2v (init cfg2v) hist2v)).drops = [] := by decide
+
+/-- one video track, audio 1.5 s ahead: nextSegmentStartingPos ignores the key frame (more than 1 s behind the
+newest pending sample), the new segment starts at the audio sample, the key frame is "received too late" -/
+def cfgva : Cfg := ⟨[⟨true, 1000⟩, ⟨false, 1000⟩], 1000000000, 1000000000⟩
+def histAhead : List In :=
+  [ms 0 0 false 1, ms 1 0 false 2, ms 0 500 true 3, ms 1 2500 false 4, ms 0 1000 false 5, ms 0 1500 true 6,
+   ms 0 2600 true 7, ms 0 2700 true 8, ms 1 3000 false 9]
+
+theorem sync_witness_audio_ahead :
+    (close (grun cfgva (init cfgva) histAhead)).files.map (fileSync cfgva) = [true, false] ∧
+    (close (grun cfgva (init cfgva) histAhead)).drops = [(1, 0), (1, 0)] := by decide
+
+/-- first segment: audio opened it at 0.5 s, the first key frame carries 0.4 s -/
+def histLate : List In :=
+  [ms 1 500 false 1, ms 1 600 false 2, ms 0 400 false 3, ms 0 450 true 4, ms 0 520 true 5, ms 0 560 true 6]
+
+theorem sync_witness_late_keyframe :
+    (close (grun cfgva (init cfgva) histLate)).files.map (fileSync cfgva) = [false] ∧
+    (close (grun cfgva (init cfgva) histLate)).drops = [(0, 0), (0, 0)] := by decide
+
+theorem starts_with_sync_witness : ¬ starts_with_sync_full := by
+  intro h
+  have h1 := sync_witness_late_keyframe.1
+  cases hf : (close (grun cfgva (init cfgva) histLate)).files with
+  | nil => rw [hf] at h1; simp at h1
+  | cons f r =>
+    have := h cfgva histLate f (by rw [hf]; exact List.mem_cons_self)
+    rw [hf] at h1
+    simp at h1
+    rw [this] at h1
+    exact absurd h1.1 (by simp)
+
+/-! #### file names -/
+
+/-- "each segment on disk …": segments of one recording have distinct file names (start time to the µs) -/
+def names_distinct_full : Prop :=
+  ∀ (c : Cfg) (l : List In), ((close (grun c (init c) l)).files.map (fun f => f.startNTP / 1000)).Nodup
+
+/-- segmentDuration 0.5 s, the audio track delivers one sample and stalls: every key frame closes the segment and
+the next one starts again at the same pending audio sample -/
+def cfgShort : Cfg := ⟨[⟨true, 1000⟩, ⟨false, 1000⟩], 500000000, 1000000000⟩
+def histColl : List In := [ms 1 0 false 1, ⟨0, 0, 1000000, false, 2⟩, ms 0 600 false 3, ms 0 700 false 4, ms 0 800 false 5]
+
+theorem name_collision_witness_value :
+    (close (grun cfgShort (init cfgShort) histColl)).files.map (fun f => (f.number, f.startNTP / 1000)) =
+      [(0, 1000), (1, 0), (2, 0)] := by decide
+
+theorem names_distinct_witness : ¬ names_distinct_full := by
+  intro h
+  have := h cfgShort histColl
+  revert this
+  decide
 
 /-! ### non-vacuity -/
 
